@@ -13,6 +13,11 @@ search : oracle independent of the model: direct boolean selection on the full
          observable`, fresh twin object, global restore, `set_window(window())`,
          objects nested on the library's own arrays, power-of-two rescaled twins,
          shuffled anomalies, selected phases / months incl. wrapping and error cases
+round 5: `phase_mean()` / `anomaly()` as executed in IEEE binary64 / binary32 (`flt`, `flt32`: the
+         model rounds every operation; arbitrary doubles / float32 / int64 observables, bit-for-bit
+         comparison, other orders of summation accepted within the bound proved for every order);
+         `set_window` with Python-float bounds that are not float32 numbers (`W32=`: comparisons
+         in float32 as NumPy 2 carries them out; judged per axis, no rounding mode prescribed)
 round 4: `shuffled_anomaly()` on the recorded raw draw stream (the model runs NumPy's masked
          rejection sampling and Fisher-Yates itself; matrix and number of draws compared exactly),
          proved rounding bounds instead of tolerances in the oracle, masked / packed NetCDF
@@ -1268,8 +1273,14 @@ def run(ctx):
                 "nested constructor / cache_clear and queries); distinct = distinct canonical "
                 "request; non-trivial = at least one window change that keeps some but not all samples")
     ctx.trusted = common.DEFAULT_TRUSTED + [
-        "NumPy boolean-mask / strided indexing, ndarray.min/max/mean, float32 comparison of "
-        "float32-exact values: modelled as their mathematical operations on rationals",
+        "NumPy boolean-mask / strided indexing, ndarray.min/max: modelled as their mathematical "
+        "operations on rationals; ndarray.mean / the subtraction of the mean: modelled exactly on "
+        "the history streams and, round 5, as executed in IEEE binary64 / binary32 (every operation "
+        "rounded to nearest-even, sum over axis 0 row after row; compared bit for bit with the real "
+        "results on arbitrary doubles, another order of summation being accepted within the bound "
+        "proved for every order); the float32 comparison of set_window: the exact comparison on "
+        "float32 numbers (theorem float32_comparison_exact), modelled with the conversion of "
+        "Python-float bounds to float32 (applyWindow32) on the float32-bounds stream",
         "functools.lru_cache keyed by (id, _mut_window): modelled as an association list with "
         "arbitrary eviction",
         "numpy.random.shuffle = masked rejection sampling (random_interval) + Fisher-Yates on the raw "
